@@ -210,12 +210,93 @@ pub fn search<W: WorldDriver>(cfg: &Cfg, cases: u32, max_len: usize, seed: u64, 
     C10Search { stats, runs, points, fired, by_site, nontrivial, failure }
 }
 
+/// A column guard leaked with `mem::forget` (safe code) leaves its RefCell borrowed forever. The
+/// statically borrowed API (`destroy`, `create`, views, `ecs_find!`, `Archetype::iter`) does not go
+/// through the cell; if an operation nevertheless panics with a borrow conflict, it must not
+/// leave the entity torn. Every (column, position) of every multi-entity archetype is tried.
+pub fn leaked_guard_scenarios<W: WorldDriver>() -> Result<u64, String> {
+    // a panic anywhere in here (e.g. a debug assertion of gecs tripping over a torn entity on a
+    // path that is not individually wrapped) is a failure of the scenario, not of the harness
+    match crate::util::catch(leaked_guard_scenarios_inner::<W>) {
+        Ok(r) => r,
+        Err(m) => Err(format!("leaked-guard scenario: an operation after the interrupted destroy panicked: {}", m)),
+    }
+}
+
+fn leaked_guard_scenarios_inner<W: WorldDriver>() -> Result<u64, String> {
+    use crate::types::*;
+    use crate::util::{catch, stamp};
+    let infos = W::archs();
+    let n = infos.len();
+    let mut count = 0u64;
+    for a in 0..n {
+        let ncols = infos[a].ncols();
+        for col in 0..ncols {
+            for mutable in [true, false] {
+                for victim in 0..3usize {
+                    crate::comps::reg_reset();
+                    crate::comps::suspend();
+                    let mut w = W::construct(Ctor::New, &vec![0; n]);
+                    let mut ents: Vec<(Raw, Vec<u64>)> = Vec::new();
+                    for i in 0..3u64 {
+                        let vals: Vec<u64> = (0..ncols).map(|c| stamp(i + 1, c, 0)).collect();
+                        if let CreateOut::Created { raw, .. } = W::create(&mut w, a, CreatePath::WCreate, &vals) {
+                            ents.push((raw, vals.iter().zip(infos[a].masks.iter()).map(|(v, m)| v & m).collect()));
+                        }
+                    }
+                    w.leak_guard(a, col, mutable);
+                    let (vraw, _) = ents[victim].clone();
+                    let r = catch(|| W::destroy(&mut w, a, if victim % 2 == 0 { Level::World } else { Level::Arch }, Key::Ent(vraw)));
+                    let what = format!("{} with a leaked {} guard on column {} ({}), destroying the entity at dense position {}", infos[a].name, if mutable { "mutable" } else { "shared" }, col, infos[a].col_names[col], victim);
+                    // either it worked or it panicked; in both cases every entity is fully present or fully absent
+                    let gone = match &r {
+                        Ok(Some(_)) => true,
+                        Ok(None) => return Err(format!("{}: destroy rejected a live handle", what)),
+                        Err(_) => W::lookup(&mut w, a, LookupPath::AContains, Key::Ent(vraw)).is_none(),
+                    };
+                    if gone {
+                        ents.remove(victim);
+                    }
+                    if W::len(&w, a) != ents.len() {
+                        return Err(format!("{}: destroy {}; len() is {} but {} entities are alive", what, if r.is_err() { "panicked" } else { "returned" }, W::len(&w, a), ents.len()));
+                    }
+                    for (raw, vals) in &ents {
+                        for path in [LookupPath::AView, LookupPath::Find, LookupPath::AResolveSlices, LookupPath::AResolveAllSlices] {
+                            match catch(|| W::lookup(&mut w, a, path, Key::Any(*raw))) {
+                                Ok(Some(o)) if o.raw == Some(*raw) && &o.vals == vals => {}
+                                other => return Err(format!("{}: afterwards {:?} of live entity {:?} gives {:?}, expected stamps {:x?} (destroy {})", what, path, raw, other, vals, if r.is_err() { "panicked" } else { "returned" })),
+                            }
+                        }
+                    }
+                    let it = catch(|| W::iterate(&mut w, a, IterPath::ArchIter, None)).map_err(|m| format!("{}: iteration panicked: {}", what, m))?;
+                    let mut got: Vec<Raw> = it.iter().filter_map(|o| o.raw).collect();
+                    let mut want: Vec<Raw> = ents.iter().map(|e| e.0).collect();
+                    got.sort();
+                    want.sort();
+                    if got != want {
+                        return Err(format!("{}: afterwards Archetype::iter yields {:?}, live entities are {:?}", what, got, want));
+                    }
+                    let d = W::dump(&w, a);
+                    crate::probe::rep_invariant(&d, infos[a].id).map_err(|m| format!("{}: representation invariant: {}", what, m))?;
+                    let _ = catch(move || drop(w));
+                    let dd = crate::comps::reg(|r| (r.double_drops.clone(), r.zst_underflow));
+                    if !dd.0.is_empty() || dd.1 > 0 {
+                        return Err(format!("{}: components dropped twice ({:?}) when the world was dropped", what, dd.0));
+                    }
+                    count += 1;
+                }
+            }
+        }
+    }
+    Ok(count)
+}
+
 /// Fixed documented-panic scenarios that need no history.
 pub fn fixed_scenarios<W: WorldDriver>() -> Result<u64, String> {
     use crate::types::Ctor;
     use crate::util::catch;
     let n = W::archs().len();
-    let mut count = 0;
+    let mut count = leaked_guard_scenarios::<W>()?;
     for a in 0..n {
         // with_capacity beyond 2^24 panics with the documented message and builds nothing
         let mut caps = vec![0usize; n];
